@@ -8,5 +8,6 @@ CONSTANTS
   Disturbs = FALSE
   DevRows = FALSE
   DevInd = TRUE
+  DevDocInd = FALSE
 INVARIANTS LengthInv StepOKModKnown
 CHECK_DEADLOCK FALSE
